@@ -14,8 +14,16 @@ CONSTANTS
   Http10NoChunkedReq = FALSE
   Expect10Proceeds = FALSE
   RefusedPrepareCleansWriter = TRUE
+  FailedPrepareCleansWriter = FALSE
+  WithheldBodyCloses = FALSE
+  HostKeptOnRetry = FALSE
+  CutBodyCloses = TRUE
+  CancelCloses = TRUE
+  FreshHeaderContainer = TRUE
 INVARIANT FramingTruthfulButKnown
 INVARIANT ReceiverFollowsRfcButKnown
 INVARIANT CloseAgreeButKnown
 INVARIANT NoHangButKnown
+INVARIANT UnfinishedNeverReusedButKnown
+INVARIANT RetrySameRequestButKnown
 CHECK_DEADLOCK FALSE
